@@ -91,6 +91,10 @@ def luhn(L, opt, seps=None, base=48):
                 ok = accepts(card, good)
             require(ok, 'number with its computed check digit does not validate', key='C15/valid', replay=rp)
             return {'sample': rp()['args'], 'replay': rp()}
+        if what in ('subst', 'transp'):
+            # the valid number is validated first (a check that remembers what it has accepted must not let the next number through)
+            with guard('validate_check_digit', 'C15/exception', rp, allow=(AssertionError,)):
+                require(accepts(card, good), 'number with its computed check digit does not validate', key='C15/valid', replay=rp)
         # positions of digit cells in `good`
         pos = [i for i, c in enumerate(good.cells) if not isinstance(c, str) or c.isdigit()]
         if what == 'subst':
